@@ -160,11 +160,13 @@ func (r *Report) finish(w *World, o *Options, start time.Time) int {
 		"wall_s":      time.Since(start).Seconds(),
 		"violations":  len(violations),
 	}
-	os.MkdirAll(filepath.Join(o.verif, "evidence"), 0o755)
-	b, _ := json.MarshalIndent(ev, "", " ")
-	if err := os.WriteFile(filepath.Join(o.verif, "evidence", o.property+".json"), b, 0o644); err != nil {
-		fmt.Fprintln(os.Stderr, "cannot write evidence:", err)
-		return 2
+	if !o.noEvidence {
+		os.MkdirAll(filepath.Join(o.verif, "evidence"), 0o755)
+		b, _ := json.MarshalIndent(ev, "", " ")
+		if err := os.WriteFile(filepath.Join(o.verif, "evidence", o.property+".json"), b, 0o644); err != nil {
+			fmt.Fprintln(os.Stderr, "cannot write evidence:", err)
+			return 2
+		}
 	}
 	fmt.Printf("property %s: %d obligations, %d discharged, %d bounded, %d known findings, %d violations (%.1fs)\n",
 		o.property, len(all), discharged, bounded, len(knownHit), len(violations), time.Since(start).Seconds())
